@@ -24,7 +24,7 @@ Json Scenario::to_json() const {
 	j.set("files", fs);
 	j.set("stdin_units", stdin_units);
 	Json pl = Json::arr();
-	for (auto &p : plans) pl.push(Json::obj().set("stage", stage_name[p.kind]).set("occ", p.occ).set("mode", mode_name[p.mode]).set("param", p.param));
+	for (auto &p : plans) pl.push(Json::obj().set("stage", stage_name[p.kind]).set("occ", p.occ).set("mode", mode_name[p.mode]).set("param", p.param).set("code", p.code));
 	j.set("plans", pl);
 	Json fl = Json::arr();
 	for (auto &f : faults) fl.push(Json::obj().set("call", f.call).set("index", f.index).set("errno", f.err));
@@ -64,6 +64,7 @@ bool Scenario::from_json(const Json &j, Scenario &s) {
 			for (int i = 0; i < NMODE; i++) if (md == mode_name[i]) t.mode = i;
 			t.occ = (int)p.geti("occ");
 			t.param = (int)p.geti("param");
+			t.code = (int)p.geti("code");
 			s.plans.push_back(t);
 		}
 	if (const Json *fl = j.get("faults"))
@@ -208,7 +209,8 @@ static Scenario minimise(Scenario sc, const std::string &cls, const Outcome &fir
 		for (size_t i = 0; i < sc.missing_tools.size();) { Scenario t = sc; t.missing_tools.erase(t.missing_tools.begin() + i); if (!attempt(t)) i++; }
 		for (size_t i = 0; i < sc.plans.size(); i++) {
 			if (sc.plans[i].param > 0) { Scenario t = sc; t.plans[i].param = 0; if (!attempt(t)) { t = sc; t.plans[i].param = sc.plans[i].param / 2; if (t.plans[i].param != sc.plans[i].param) attempt(t); } }
-			if (sc.plans[i].mode > M_EXIT1_BEFORE_READ) { Scenario t = sc; t.plans[i].mode = M_EXIT1_BEFORE_READ; t.plans[i].param = 0; attempt(t); }
+			if (sc.plans[i].mode > M_EXIT1_BEFORE_READ) { Scenario t = sc; t.plans[i].mode = M_EXIT1_BEFORE_READ; t.plans[i].param = 0; t.plans[i].code = 0; attempt(t); }
+			if (sc.plans[i].code) { Scenario t = sc; t.plans[i].code = 0; attempt(t); }
 		}
 		// command line: drop one argument at a time, then pairs (option with value)
 		for (size_t i = 1; i < sc.argv.size();) {
